@@ -102,7 +102,7 @@ func (f *formatter) kw(keyword string) string {
 }
 
 func (f *formatter) indentStr() string {
-	if f.opts.IndentWidth == 0 {
+	if f.opts.IndentWidth <= 0 {
 		return ""
 	}
 	ch := " "
